@@ -1,4 +1,4 @@
-package fakes
+package fakes17
 
 // minich.go — a reference interpreter for the small SELECT subset the reader's selector planners emit
 // (WITH sub-queries, WHERE/GROUP BY/HAVING/ORDER BY/LIMIT, comparisons, and/or, IN lists and IN (with-name),
